@@ -1475,3 +1475,39 @@ func init() {
 		return p
 	}
 }
+
+func init() {
+	// Start is called while a StopWithContext call of the same object is in progress (another
+	// goroutine of the application restarts the election). Start either refuses (stop in progress)
+	// or begins a new run - and a run it has begun must work: it fills the next vacancy. The stop
+	// call is slow between its critical sections (stalls at its lock sites), so that some Start
+	// lands after the old run has drained and before the stop call's last bookkeeping.
+	families["stoprestart"] = func(r *Rng) *Plan {
+		p := &Plan{Judge: []string{"C06", "C08", "C19", "C05"}, StartDuringStop: true,
+			NoJudge: []string{"C01", "C02", "C03", "C04", "C07", "C09", "C10", "C11", "C12", "C13", "C18"}}
+		baseTiming(r, p, hLattice[:5])
+		p.Insts = mkInsts(r, 1, 1)
+		p.Store = healthyStore(r, p.H/10)
+		t0 := time.Duration(0)
+		if r.Bool(0.5) {
+			// another owner's record first (expires TTL later): the instance is a follower when stopped
+			p.Actions = append(p.Actions, Action{At: 0, Kind: AOutPut, Key: "g1", Value: []byte(`{"id":"intruder","token":"00000000-0000-4000-8000-000000000001","priority":0}`)})
+			t0 = 10 * ms
+		}
+		p.Actions = append(p.Actions, Action{At: t0, Kind: AStart, Inst: 0})
+		t := t0 + r.Dur(p.H, p.TTL-p.H/2)
+		if r.Bool(0.75) {
+			p.Actions = append(p.Actions, Action{At: t, Kind: AStopCtx, Inst: 0, WaitForDemote: r.Bool(0.3), DeleteKey: r.Bool(0.3)})
+		} else {
+			p.Actions = append(p.Actions, Action{At: t, Kind: AStop, Inst: 0})
+		}
+		for j := 0; j < 3+r.Intn(5); j++ {
+			p.Actions = append(p.Actions, Action{At: t + r.Dur(0, 400*ms), Kind: AStart, Inst: 0})
+		}
+		p.Until = t + 3*p.TTL + 6*sec
+		p.Tail = 0
+		statusCalls(r, p)
+		p.Sched = SchedCfg{YieldProb: 0.6, StallMax: Pick(r, []time.Duration{50 * ms, 200 * ms, 400 * ms}), StallSites: []string{"StopWithContext", "Stop"}}
+		return p
+	}
+}
